@@ -113,6 +113,18 @@ class ClientRun:
 
     async def _on_stop(self, expected: bool) -> None:
         self.user_stops.append(expected)
+        # what the application does in the first step of its stop callback (tasks start eagerly: this runs inside
+        # the callback in which the session ended)
+        hook = self.cfg.get("hook", "none")
+        if hook == "start":
+            self.spawn("start", self.client.start_connection(self._on_stop))
+        elif hook == "api":
+            is_async, kwargs = self.api_by_name["switch_command"]
+
+            async def call():
+                return self.client.switch_command(**kwargs)
+
+            self.spawn("api", call())
 
     # ---------------------------------------------------------------- events
     def ev_start(self):
@@ -265,7 +277,7 @@ class ClientRun:
         self.client_mod.APIConnection = self._orig_conn_cls
         self._orig_conn_cls._add_message_callback_without_remove = self._orig_add
         self.w.close()
-        return {"cfg": {"noise": bool(self.cfg.get("noise")), "login": bool(self.cfg.get("login"))}, "rows": self.rows, "skipped": self.skipped,
+        return {"cfg": {"noise": bool(self.cfg.get("noise")), "login": bool(self.cfg.get("login")), "hook": self.cfg.get("hook", "none")}, "rows": self.rows, "skipped": self.skipped,
                 "gaps": self.api_gaps, "stops": self.user_stops}
 
 
@@ -404,4 +416,40 @@ def gate_sweep(cfgs: list) -> list:
             for n in names:
                 sch += [("ev", "api", n), ("idle",)]
             out.append((cfg, sch))
+    return out
+
+
+def stop_hook_family(cfgs: list) -> list:
+    """The application's stop callback reconnects / issues a command in its very first step, i.e. inside the callback
+    in which the session ended - for every way a session can end, with every gap; the attempt it started is then
+    completed, disturbed or abandoned, and a further attempt must be accepted afterwards."""
+    out = []
+    ends = [("ev", "disconnect", False), ("ev", "disconnect", True), ("ev", "eof"), ("ev", "reset"), ("ev", "chunk", [{"k": "discreq"}]),
+            ("ev", "chunk", [{"k": "garbage"}]), ("tick",)]
+    for base in cfgs:
+        for hook in ("start", "api"):
+            cfg = dict(base, hook=hook)
+            hello = [HELLO_OK] + ([CONNECT_OK] if cfg.get("login") else [])
+            for split in (True, False):
+                pre = []
+                for ev in session_steps(cfg, random.Random(0), split):
+                    pre += [ev, ("idle",)]
+                for end in ends:
+                    for g in ([], [("iter", 1)], [("idle",)]):
+                        for after in ("complete", "fail", "disconnect", "second_start"):
+                            sch = list(pre) + [("ev", "api", "switch_command")] + g + [end] + g
+                            if end == ("tick",):
+                                sch += [("tick",)] * 8      # keep-alive: ping, then the pong time-out ends the session
+                            if after == "complete":
+                                sch += [("ev", "resolve", "ok"), ("idle",), ("ev", "tcp", "ok"), ("idle",), ("ev", "finish"), ("idle",)]
+                                sch += ([("ev", "handshake"), ("idle",)] if cfg.get("noise") else []) + [("ev", "chunk", hello), ("idle",), ("ev", "api", "switch_command"), ("idle",)]
+                                sch += [("ev", "disconnect", True), ("idle",)]
+                            elif after == "fail":
+                                sch += [("ev", "resolve", "err"), ("idle",)]
+                            elif after == "disconnect":
+                                sch += [("ev", "disconnect", False), ("idle",)]
+                            else:
+                                sch += [("ev", "start"), ("idle",), ("ev", "resolve", "ok"), ("idle",), ("ev", "tcp", "err"), ("idle",)]
+                            sch += [("ev", "connect"), ("idle",), ("ev", "resolve", "err"), ("idle",), ("tick",), ("tick",)]
+                            out.append((cfg, sch))
     return out
